@@ -61,3 +61,39 @@ Example interpret_examples :
   interpret_flexibly (str "/@x/") = ARegexp (str "@x") /\ interpret_flexibly (str "@/x/") = AGroup (str "/x/") /\
   interpret_flexibly (str "refs/heads/") = APrefix (str "refs/heads/") /\ interpret_flexibly [] = APrefix [].
 Proof. vm_compute. repeat split. Qed.
+
+(* ---- the value of a fixed-pattern flag (--tags=VALUE, --no-branches=VALUE, ...): strconv.ParseBool ---- *)
+Definition parse_bool (s : bytes) : option bool :=
+  if existsb (beqb s) [str "1"; str "t"; str "T"; str "TRUE"; str "true"; str "True"] then Some true
+  else if existsb (beqb s) [str "0"; str "f"; str "F"; str "FALSE"; str "false"; str "False"] then Some false
+  else None.
+
+(* the polarity of one occurrence of a flag: its own polarity, inverted by an explicit false value; an unreadable value is an
+   error.  It is a function of this occurrence alone — nothing an earlier occurrence did can change it. *)
+Definition flag_polarity (include : bool) (value : bytes) : option bool :=
+  match parse_bool value with Some b => Some (if b then include else negb include) | None => None end.
+
+Theorem flag_polarity_true inc v : parse_bool v = Some true -> flag_polarity inc v = Some inc.
+Proof. unfold flag_polarity. now intros ->. Qed.
+
+Theorem flag_polarity_false inc v : parse_bool v = Some false -> flag_polarity inc v = Some (negb inc).
+Proof. unfold flag_polarity. now intros ->. Qed.
+
+Theorem parse_bool_values v b : parse_bool v = Some b <->
+  In v (if b then [str "1"; str "t"; str "T"; str "TRUE"; str "true"; str "True"]
+        else [str "0"; str "f"; str "F"; str "FALSE"; str "false"; str "False"]).
+Proof.
+  unfold parse_bool.
+  set (ts := [str "1"; str "t"; str "T"; str "TRUE"; str "true"; str "True"]).
+  set (fs := [str "0"; str "f"; str "F"; str "FALSE"; str "false"; str "False"]).
+  assert (Hex : forall l, existsb (beqb v) l = true <-> In v l).
+  { intros l. rewrite existsb_exists. split; [intros (x & Hx & E); apply beqb_eq in E; now subst|intros H; exists v; split; [exact H|apply beqb_refl]]. }
+  assert (Hdis : forall x, In x ts -> In x fs -> False).
+  { intros x Ht Hf. cbn in Ht, Hf. repeat (destruct Ht as [<-|Ht]; [repeat (destruct Hf as [Hf|Hf]; [discriminate Hf|]); exact Hf|]). exact Ht. }
+  destruct (existsb (beqb v) ts) eqn:Et.
+  - apply Hex in Et. destruct b; split; intros H; try reflexivity; try exact Et; try discriminate. exfalso. now apply (Hdis v).
+  - destruct (existsb (beqb v) fs) eqn:Ef.
+    + apply Hex in Ef. destruct b; split; intros H; try reflexivity; try exact Ef; try discriminate.
+      exfalso. apply Hex in H. congruence.
+    + destruct b; split; intros H; try discriminate; apply Hex in H; congruence.
+Qed.
